@@ -887,15 +887,21 @@ class StyleProperties:
       )
 
     @classmethod
-    def from_model(cls, xml_element, model_value: styles.TextEmphasisType):
+    def from_model(cls, xml_element, model_value: typing.Union[styles.TextEmphasisType, styles.SpecialValues]):
       actual_values = []
 
-      actual_values.append(model_value.style.value)
+      if model_value is styles.SpecialValues.none:
 
-      if model_value.color is not None:
-        actual_values.append(StyleProperties.to_ttml_color(model_value.color))
+        actual_values.append(model_value.value)
 
-      actual_values.append(model_value.position.value) 
+      else:
+
+        actual_values.append(model_value.style.value)
+
+        if model_value.color is not None:
+          actual_values.append(StyleProperties.to_ttml_color(model_value.color))
+
+        actual_values.append(model_value.position.value) 
 
       xml_element.set(
         f"{{{cls.ns}}}{cls.local_name}",
